@@ -2,6 +2,8 @@
 import json, os
 import vf
 
+SKIP = "-"
+
 def correspondence(ctx, *, pkg, test, name, drivers, trivial=None, kind_of=None, env=None, timeout=1800,
                    model_is_spec=True, monitor=None, what="implementation output differs from the proved model", replay_ops=None):
     """Run the Go harness `test` in `pkg` (writes <name>.ops/.impl into ctx.work), run each driver
@@ -28,7 +30,7 @@ def correspondence(ctx, *, pkg, test, name, drivers, trivial=None, kind_of=None,
             ctx.tie_failures.append("driver %s %s failed rc=%d" % (exe, " ".join(args), drc))
             continue
         model = ctx.read_lines(mf)
-        bad = ctx.compare(ops, impl, model, label)
+        bad = [t for t in ctx.compare(ops, impl, model, label) if t[3] != SKIP]   # a driver answers SKIP for ops it does not model
         if monitor and bad:
             # report the mismatches on which the property monitor fires first (they carry a concrete failing input)
             bad = sorted(bad, key=lambda t: (0 if monitor(t[1], t[2]) else 1, t[0]))
